@@ -239,7 +239,8 @@ Definition sd_wf (t : rtree) (d : sd) : bool :=
   forallb (fun v => existsb (fun h => Nat.eqb (hnode h) v) (hes d)) (ids t).
 
 (* canonical form used to compare a diagram with the implementation's up to renaming of the
-   uuids: per node (in pre-order) the list of (label, lambda, gamma, bond indices of the
+   uuids: per node (in pre-order) the list of (label, lambda as (numerator, denominator)
+   -- Coq prints some Q values in decimal/hexadecimal notation --, gamma, bond indices of the
    vertices), per non-root node the number of vertices of its parent edge *)
 Fixpoint index_in (x : oid) (e : nat) (l : list vx) (n : nat) : nat :=
   match l with
@@ -249,8 +250,9 @@ Fixpoint index_in (x : oid) (e : nat) (l : list vx) (n : nat) : nat :=
   end.
 Definition bond_index (d : sd) (x : oid) : nat :=
   match vx_of d x with Some v => index_in x (vedge v) (vxs d) 0 | None => 0 end.
-Definition canon := (list (nat * list (nat * Q * nat * list nat)) * list (nat * nat))%type.
+Definition canon := (list (nat * list (nat * (Z * positive) * nat * list nat)) * list (nat * nat))%type.
+Definition qpair (q : Q) : Z * positive := let r := Qred q in (Qnum r, Qden r).
 Definition sd_canon (t : rtree) (d : sd) : canon :=
-  (map (fun v => (v, map (fun h => (hlabel h, Qred (hlam h), hgam h, map (bond_index d) (hverts h)))
+  (map (fun v => (v, map (fun h => (hlabel h, qpair (hlam h), hgam h, map (bond_index d) (hverts h)))
                          (filter (fun h => Nat.eqb (hnode h) v) (hes d)))) (ids t),
    map (fun v => (v, length (filter (fun x => Nat.eqb (vedge x) v) (vxs d)))) (tl (ids t))).
